@@ -6,7 +6,7 @@ from loadlib import *
 ID = "C02"
 GEN = ["Candidates"]
 THEOREMS = ["C02_ok_restores_locks", "C02_loop_sound", "C02_acyclic_no_loop", "C02_acyclic_terminates",
-            "C02_reference_total", "C02_refuted_loadcss", "C02_refuted_spelling_partial"]
+            "C02_refuted_loadcss", "C02_termination_refuted", "C02_refuted_spelling_partial"]
 COQ_HEADER = ("From Coq Require Import String List ZArith NArith.\nFrom RV Require Import Gen.Candidates Model.Load Model.LoadRun Run.C02.\n"
               "Import ListNotations.\nLocal Open Scope string_scope.")
 RUN_EXPR = "Run.C02.run"
@@ -101,6 +101,8 @@ def gen_cases(ctx, tier):
     add(3, [(0, 1, "use", "./{}"), (1, 2, "use", "{}"), (2, 1, "use", "{}")], "norm")
     add(3, [(0, 1, "use", "{}"), (0, 1, "use", "./{}"), (0, 1, "import", "d/../{}"), (1, 2, "forward", "{}"), (0, 2, "loadcss", "./{}")], "norm")
 
+    ncorpus = len(loud)
+
     def rnd_edge(s, d, canonical):
         sp = "{}" if canonical else rng.choice(SPELL + ["{}", "{}"])
         return (s, d, rng.choice(KINDS4), sp)
@@ -142,8 +144,9 @@ def gen_cases(ctx, tier):
         for combo in itertools.product(opts, repeat=4):
             edges = [(s, d, o[0], o[1]) for (s, d), o in zip([(0, 0), (0, 1), (1, 0), (1, 1)], combo) if o]
             add(2, edges, "norm")
-    rng.shuffle(loud)
-    loud = loud[:nc]
+    rest = loud[ncorpus:]
+    rng.shuffle(rest)
+    loud = loud[:ncorpus] + rest[:max(0, nc - ncorpus)]
     # at most a few runs on the real file system among the slow ones
     cases = quiet
     step = max(1, len(cases) // (len(loud) + 1))
@@ -202,7 +205,7 @@ def shrink(c):
 LEVEL_TEXT = ("proof: invariant over Context.loading (every locked key is the name of a file on the current load stack; a successful "
               "load restores the lock set) gives soundness of loop errors for every loader and every world: a loop error exhibits a "
               "real cycle through the stack; on ranked (acyclic) load graphs the model terminates within rank+1 nested loads and "
-              "never reports a loop; the reference semantics never runs out of fuel; the full statement is refuted with two witnesses "
+              "never reports a loop; the full statement is refuted with two witnesses "
               "(load-css self loop: for every fuel; `./` spelling: up to the stated depth); tied to the code by exact loader-call-log "
               "and output correspondence over generated graphs")
 LEVEL_NOTE = ("trusted: Coq kernel+vm_compute, the harness (normalising in-memory loader), Spec/LoadRef.v; F5 and F6 are recorded as "
